@@ -112,6 +112,13 @@ def c02_names():
     return _C02_NAMES
 
 
+KNOWN_KERNELS = ['NearZero', 'Normalize', 'AngleMod', 'Norm', 'Norm6', 'RotInv', 'VecToso3', 'so3ToVec', 'AxisAng3', 'MatrixExp3', 'SafeTrace', 'SafeClip',
+                 'MatrixLog3', 'RpToTrans', 'TransToRp', 'TransInv', 'VecTose3', 'se3ToVec', 'Adjoint', 'ScrewToAxis', 'AxisAng6', 'MatrixExp6', 'MatMul',
+                 'LocalToGlobal', 'GlobalToLocal', 'MatrixLog6', 'SafeDot', 'DistanceToSO3', 'DistanceToSE3', 'TestIfSO3', 'TestIfSE3', 'FKinBody', 'FKinSpace',
+                 'SafeCopy', 'JacobianBody', 'JacobianSpace', 'IKinBody', 'IKinSpace', 'ad', 'EulerStep', 'CubicTimeScaling', 'QuinticTimeScaling',
+                 'JointTrajectory', 'IKinSpaceConstrained', 'SPIKinSpace', 'SPFKinSpaceR', 'TrVec']      # the 47 @jit functions of the pinned tree
+
+
 def kernel_list(mods):
     """Names of the @jit kernels (works with and without NUMBA_DISABLE_JIT by reading the decorators from the source)."""
     import ast
@@ -193,6 +200,11 @@ def run_triple(spec, ctx, bm):
     k = 0
     for mod, name in kl:
         f = getattr(mod, name)
+        if name not in KNOWN_KERNELS:
+            # a jitted helper that is not one of the 47 public kernels (added by a refactoring): no argument generator exists for
+            # it; it is exercised through the kernels and entry points that call it
+            ctx.bump("kernels_without_generator", name)
+            continue
         for j in range(int(spec["per_fn"])):
             args = kernel_args(name, rng)
             a = copy.deepcopy(args)
@@ -316,6 +328,9 @@ def run_pyfunc(spec, ctx, bm):
     rng = ctx.rng
     for mod, name in kernel_list([A, B]):
         f = getattr(mod, name)
+        if name not in KNOWN_KERNELS:
+            ctx.bump("kernels_without_generator", name)
+            continue
         if not isinstance(f, Dispatcher):
             ctx.inconc("kernel %s is not a dispatcher in the JIT process" % name)
             continue
@@ -499,10 +514,10 @@ def finalize(m, tier, results):
             m["violations"].append({"clause": clause, "key": key, "detail": detail, "case": {"call": detail.get("call"), "note": "re-run the tier with the same VERIF_SEED"}})
     pyf = {k[7:] for k in m["clauses"] if k.startswith("kernel:")}
     m["extra"]["kernels_covered_pyfunc"] = len(pyf)
-    if len(kernels) != 47:
-        m["inconclusive"].append("three-way execution covered %d of 47 kernels" % len(kernels))
-    if len(pyf) != 47:
-        m["inconclusive"].append("py_func comparison covered %d of 47 kernels" % len(pyf))
+    if len(kernels & set(KNOWN_KERNELS)) != 47:
+        m["inconclusive"].append("three-way execution covered %d of 47 kernels" % len(kernels & set(KNOWN_KERNELS)))
+    if len(pyf & set(KNOWN_KERNELS)) != 47:
+        m["inconclusive"].append("py_func comparison covered %d of 47 kernels" % len(pyf & set(KNOWN_KERNELS)))
     if n_cmp == 0:
         m["inconclusive"].append("no call was executed in all three environments")
     if m["extra"].get("three_way_iterative_compared", 0) < 20:
